@@ -41,13 +41,19 @@ PROJECTS = {
     'page_names': [('pn', '', True), ('pn.a', 'class b:\n    class c: pass\n', False), ('pn.z', 'class Index: pass\nclass index: pass\n', False)],
     'zope': [('z', 'from zope.interface import Interface, implementer\nclass IFoo(Interface):\n    def m(): pass\n'
                    '@implementer(IFoo)\nclass Foo:\n    def m(self): pass\nclass Sub(Foo): pass\n', False)],
+    # a name that is a method (or a nested class) first and is then assigned an Attribute / schema field
+    'zope_rebound': [('zr', 'from zope.interface import Interface, Attribute\nimport zope.schema as schema\nclass IFoo(Interface):\n    def x(): "method"\n    x = Attribute("now an attribute")\n'
+                            '    def f(): "method"\n    f = schema.TextLine(description="d")\n    class N: pass\n    N = Attribute("was a class")\n'
+                            'class K:\n    def y(self): pass\n    y = Attribute("attr")\n', False)],
     # interfaces created by calling an InterfaceClass subclass, implemented by classes and provided by a module
     'zope_called': [('zc', '', True),
                     ('zc.ifaces', 'from zope.interface import Interface\nfrom zope.interface.interface import InterfaceClass\n'
                                   'class PluginInterfaceClass(InterfaceClass):\n    pass\nIPlugin = PluginInterfaceClass("IPlugin")\n'
                                   'class IOther(Interface):\n    pass\n', False),
                     ('zc.impl', 'from zope.interface import implementer, moduleProvides, classImplements\nfrom zc.ifaces import IPlugin, IOther\n'
-                                'moduleProvides(IPlugin)\n@implementer(IPlugin, IOther)\nclass P1:\n    pass\nclass P2:\n    pass\nclassImplements(P2, IPlugin)\n', False)],
+                                'moduleProvides(IPlugin)\n@implementer(IPlugin, IOther)\nclass P1:\n    pass\nclass P2:\n    pass\nclassImplements(P2, IPlugin)\n'
+                                # an interface from a module of the package that is not part of the run (generated at build time), named first
+                                'from zc._generated import IGen\n@implementer(IGen, IOther, IPlugin)\nclass P3:\n    pass\n', False)],
 }
 
 
@@ -55,7 +61,8 @@ def _cases(tier, seed):
     for name in PROJECTS:
         yield {'project': name}
         yield {'project': name, 'reversed': True}
-    for argv in (['shop', 'solo.py'], ['solo.py', 'shop'], ['shop', 'solo.py', 'shop'], ['solo.py', 'solo.py', 'shop'], ['shop', 'shop']):
+    for argv in (['shop', 'solo.py'], ['solo.py', 'shop'], ['shop', 'solo.py', 'shop'], ['solo.py', 'solo.py', 'shop'], ['shop', 'shop'],
+                 ['shop', 'other/shop'], ['other/shop', 'solo.py', 'shop']):
         yield {'project': 'paths', 'argv': argv}
     rnd = random.Random(seed)
     for _ in range(20 if tier == 'quick' else 200):
@@ -212,7 +219,10 @@ def _check_paths(case):
     d = tempfile.mkdtemp(prefix='c02.', dir='/var/tmp')
     try:
         files = {'shop/__init__.py': '"""Shop."""\n', 'shop/cart.py': 'class Cart:\n    def add(self): pass\n', 'shop/sub/__init__.py': '',
-                 'shop/sub/deep.py': 'from shop.cart import Cart\nclass Deep(Cart): pass\n', 'solo.py': 'import shop.cart\nclass S(shop.cart.Cart): pass\n'}
+                 'shop/sub/deep.py': 'from shop.cart import Cart\nclass Deep(Cart): pass\n', 'solo.py': 'import shop.cart\nclass S(shop.cart.Cart): pass\n',
+                 # a second package of the same name in another directory (the later one replaces the earlier one)
+                 'other/shop/__init__.py': '"""Other shop."""\nclass Till: pass\n', 'other/shop/extra.py': 'def pay(): pass\n',
+                 'other/shop/cart.py': 'class Cart:\n    def remove(self): pass\n'}
         for rel, text in files.items():
             p = os.path.join(d, rel)
             os.makedirs(os.path.dirname(p), exist_ok=True)
